@@ -71,12 +71,18 @@ class _Future(Future):
                 return True
             if self.done():
                 return False
+            # (cancel() can be re-entered, e.g. from a done-callback of the future
+            # we depend on: the inner call must leave the marker as it found it)
+            was_in_cancel = self._me_in_cancel
             self._me_in_cancel = True
             try:
                 if not self._me_cancel():
                     return False
             finally:
-                self._me_in_cancel = False
+                self._me_in_cancel = was_in_cancel
+            if self.cancelled():
+                # The inner call got there first and has done everything.
+                return True
             out = super(_Future, self).cancel()
             if out:
                 self.set_running_or_notify_cancel()
